@@ -78,6 +78,18 @@ Definition side_ok (limit : Z) (p : option (Z * Z)) : bool :=
 (* read-limit throttles proxy->client (tx), write-limit client->proxy (rx); 0 / negative = none *)
 Definition mcase_prop_ok (c : mcase) : bool := side_ok (mc_rl c) (mc_tx c) && side_ok (mc_wl c) (mc_rx c).
 
+(* ---------------------------------------------------------------- 2b. net.go Listener.Listen
+   forwarder.Listener{ReadLimit, WriteLimit}.Listen(): was the listener wrapped, and with which limiters.
+   The limits come through SizeSuffix.Set from their CLI spelling ("off" = -1). *)
+Record wcase := { wc_rl : Z; wc_wl : Z; wc_wrapped : bool; wc_rx : option (Z * Z); wc_tx : option (Z * Z) }.
+Definition wcase_model_ok (c : wcase) : bool :=
+  match listen_wrap (wc_rl c) (wc_wl c) with
+  | Some L => wc_wrapped c && olim_eqb (rxl L) (wc_rx c) && olim_eqb (txl L) (wc_tx c)
+  | None => negb (wc_wrapped c) && match wc_rx c, wc_tx c with None, None => true | _, _ => false end
+  end.
+(* each limit constrains its own direction whatever the other one's value is *)
+Definition wcase_prop_ok (c : wcase) : bool := side_ok (wc_rl c) (wc_tx c) && side_ok (wc_wl c) (wc_rx c).
+
 (* ---------------------------------------------------------------- 3. the Conn wrapper
    A scripted inner net.Conn returns (n, err) for one Read or Write; observed: what the wrapper
    returned, whether the bytes are the inner bytes, and how many tokens each limiter lost. *)
